@@ -91,3 +91,9 @@ def weighted(*pairs):
     for w, s in pairs:
         alts.extend([s] * w)
     return st.one_of(*alts)
+
+
+def on_instances(op_strategy, second=1, of=6):
+    """The same operation, occasionally issued through a SECOND store instance opened on the same directory
+    (two processes / two handles sharing one store): exposes per-instance state that goes stale."""
+    return st.tuples(op_strategy, st.integers(0, of - 1)).map(lambda t: dict(t[0], inst=1) if t[1] < second else t[0])
